@@ -132,11 +132,11 @@ long h_random(void) { AMB.hit("random"); return (long) AMB.rng.below(RAND_MAX); 
 // ---------------- plan ----------------
 enum Kind {
     K_KEYGEN = 0, K_BOX_KEYPAIR, K_BOXX_KEYPAIR, K_KX_KEYPAIR, K_SIGN_KEYPAIR, K_INIT_PUSH, K_SEAL, K_SEALX, K_PWHASH_STR, K_SCRYPT_STR,
-    K_POINT_ED, K_POINT_RIS, K_SCALAR_ED, K_SCALAR_RIS, K_UNIFORM, K_RANDOM, K_BUF, K_DETERMINISTIC, K_STIR, K_CLOSE, K_NKINDS
+    K_POINT_ED, K_POINT_RIS, K_SCALAR_ED, K_SCALAR_RIS, K_UNIFORM, K_RANDOM, K_BUF, K_DETERMINISTIC, K_STIR, K_CLOSE, K_LEGACY, K_NKINDS
 };
 const char *kind_name[K_NKINDS] = {"keygen", "box_keypair", "box_xchacha_keypair", "kx_keypair", "sign_keypair", "secretstream_init_push", "box_seal",
                                    "box_xchacha_seal", "pwhash_str", "scrypt_str", "ed25519_random", "ristretto255_random", "ed25519_scalar_random",
-                                   "ristretto255_scalar_random", "uniform", "random", "buf", "buf_deterministic", "stir", "close"};
+                                   "ristretto255_scalar_random", "uniform", "random", "buf", "buf_deterministic", "stir", "close", "randombytes_legacy"};
 
 struct Op {
     int kind = K_KEYGEN;
@@ -187,7 +187,7 @@ struct Exec {
         case K_INIT_PUSH: return 24;
         case K_PWHASH_STR: return 16;
         case K_POINT_RIS: return 64;
-        case K_BUF: return op.arg;
+        case K_BUF: case K_LEGACY: return op.arg;
         default: return 0;
         }
     }
@@ -315,6 +315,10 @@ struct Exec {
         case K_BUF:
             out.assign(op.arg, prefill);
             randombytes_buf(out.data(), op.arg);
+            break;
+        case K_LEGACY:
+            out.assign(op.arg, prefill);
+            randombytes(out.data(), op.arg);
             break;
         case K_DETERMINISTIC: {
             unsigned char seed[32];
@@ -665,7 +669,8 @@ struct C18 {
             else if (c < 790) op.kind = K_SCALAR_ED;
             else if (c < 840) op.kind = K_SCALAR_RIS;
             else if (c < 870) op.kind = K_RANDOM;
-            else if (c < 910) op.kind = K_BUF;
+            else if (c < 900) op.kind = K_BUF;
+            else if (c < 910) op.kind = K_LEGACY;
             else if (c < 970) op.kind = K_DETERMINISTIC;
             else if (c < 985) op.kind = K_STIR;
             else op.kind = K_CLOSE;
@@ -676,7 +681,7 @@ struct C18 {
             case K_UNIFORM: gen_uniform(op, r); break;
             case K_SCALAR_ED: case K_SCALAR_RIS: gen_scalar(op, r); break;
             case K_PWHASH_STR: op.arg = (uint32_t) r.below(4); plain = 16; break;
-            case K_BUF: op.arg = (uint32_t) r.pick<uint32_t>({0, 1, 4, 31, 32, 33, 64, 255, 256, 257, 300, 512, 600}); plain = op.arg; break;
+            case K_BUF: case K_LEGACY: op.arg = (uint32_t) r.pick<uint32_t>({0, 1, 4, 31, 32, 33, 64, 255, 256, 257, 300, 511, 512, 513, 600, 768, 1000, 1025, 4113}); plain = op.arg; break;
             case K_DETERMINISTIC: op.arg = (uint32_t) (r.chance(1, 3) ? r.pick<uint32_t>({0, 1, 63, 64, 65, 127, 128, 129, 255, 256, 257, 320, 511, 512, 513, 767, 768, 769, 1023, 1024, 1025, 1100}) : r.below(1101)); break;
             case K_RANDOM: plain = 4; break;
             case K_POINT_RIS: plain = 64; break;
@@ -701,7 +706,7 @@ struct C18 {
         for (size_t k = 0; k < nops; k++) {
             size_t idx = ((size_t) p.flip_op + k) % nops;
             int kd = p.ops[idx].kind;
-            if (kd != K_UNIFORM && kd != K_RANDOM && kd != K_DETERMINISTIC && kd != K_STIR && kd != K_CLOSE && !(kd == K_BUF && p.ops[idx].arg == 0)) { p.flip_op = (int) idx; break; }
+            if (kd != K_UNIFORM && kd != K_RANDOM && kd != K_DETERMINISTIC && kd != K_STIR && kd != K_CLOSE && !((kd == K_BUF || kd == K_LEGACY) && p.ops[idx].arg == 0)) { p.flip_op = (int) idx; break; }
         }
         p.flip_bit = f.u32();
         return p;
@@ -745,7 +750,7 @@ struct C18 {
         if (p.flip_op >= 0) { Plan c = p; c.flip_op = -1; out.push_back(c); }
         for (size_t i = 0; i < p.ops.size(); i++) {
             const Op &o = p.ops[i];
-            if ((o.kind == K_BUF || o.kind == K_DETERMINISTIC) && o.arg > 64) { Plan c = p; c.ops[i].arg = 64; if (o.kind == K_BUF) c.ops[i].seg.resize(64); out.push_back(c); }
+            if ((o.kind == K_BUF || o.kind == K_LEGACY || o.kind == K_DETERMINISTIC) && o.arg > 64) { Plan c = p; c.ops[i].arg = 64; if (o.kind != K_DETERMINISTIC) c.ops[i].seg.resize(64); out.push_back(c); }
             if (o.kind == K_UNIFORM && o.seg.size() > 4) { Plan c = p; c.ops[i].seg.erase(c.ops[i].seg.begin(), c.ops[i].seg.begin() + 4); out.push_back(c); }
             if ((o.kind == K_SCALAR_ED || o.kind == K_SCALAR_RIS) && o.seg.size() > 32) { Plan c = p; c.ops[i].seg.erase(c.ops[i].seg.begin(), c.ops[i].seg.begin() + 32); out.push_back(c); }
         }
